@@ -98,7 +98,30 @@ R = '__CPROVER_return_value'
 LOOPK = '_k0 <= g_nargs'
 
 
+_drv = [None]
+
+
+def make_replay(which):
+    def replay(lead, inputs, obs):
+        """loop-contract counterexamples are ghost states: the native driver compares the real evaluator with the mathematical value
+        on a grid of points (replay/c07_replay.cc)"""
+        import subprocess
+        from vp import native
+        if _drv[0] is None:
+            _drv[0] = native.build_driver('c07_replay.cc', 'c07_replay', native.MP_SOURCES, ['-O0'])[0]
+        p = subprocess.run([_drv[0], which], capture_output=True, text=True, timeout=300)
+        return p.returncode == 10, (p.stdout + p.stderr)[-2500:], _drv[0] + ' ' + which
+    return replay
+
+
 def harnesses(tier, seed):
+    hs = _harnesses(tier, seed)
+    for h in hs:
+        h.replay = make_replay('Check' if h.name.endswith('Violation.Check') else h.name.split('.')[-1])
+    return hs
+
+
+def _harnesses(tier, seed):
     hs = []
     # Max: >= every argument (witness g_w); <= every common upper bound g_B (mode M_LE_B); -inf only for the empty list
     hs.append(h_cv('Max',
